@@ -631,6 +631,56 @@ func genC03(repo string) (string, error) {
 	fmt.Fprintf(&sb, "/-- does `nextContainer` accept a zero-length series bucket (a container whose series were all\nflushed without field data) instead of failing on it? -/\n")
 	fmt.Fprintf(&sb, "def scannerToleratesEmptyBucket : Bool := %v\n", tolerates)
 
+	// the union of the series ids in prepare: a bitmap of its own, never one of the inputs' bitmaps
+	unionBase := ""
+	if prep != nil {
+		ast.Inspect(prep.Body, func(n ast.Node) bool {
+			if kv, ok := n.(*ast.KeyValueExpr); ok {
+				if id, ok := kv.Key.(*ast.Ident); ok && id.Name == "seriesIDs" && unionBase == "" {
+					unionBase = exprText(kv.Value)
+				}
+			}
+			return true
+		})
+	}
+	var unionCalls []string
+	for _, cl := range CallSeq(prep) {
+		if strings.HasPrefix(cl, "seriesIDs.") {
+			unionCalls = append(unionCalls, cl)
+		}
+	}
+	fmt.Fprintf(&sb, "\n/-- `merger.prepare`: what `ctx.seriesIDs` is initialised with, assignments to it afterwards, calls on it -/\n")
+	fmt.Fprintf(&sb, "def unionBaseExpr : String := %s\n", strconv.Quote(unionBase))
+	fmt.Fprintf(&sb, "def unionAssigns : List String := %s\n", LeanStrList(assignsIn(prep, "ctx.seriesIDs")))
+	fmt.Fprintf(&sb, "def unionCalls : List String := %s\n", LeanStrList(unionCalls))
+
+	// the decoder loop of DownSamplingMultiSeriesInto: one Value() right behind the has-value test
+	var loopHeads []string
+	valueCalls := 0
+	if multi != nil {
+		ast.Inspect(multi.Body, func(n ast.Node) bool {
+			if ce, ok := n.(*ast.CallExpr); ok && exprText(ce.Fun) == "decoder.Value" {
+				valueCalls++
+			}
+			if fs, ok := n.(*ast.ForStmt); ok && fs.Init != nil && loopHeads == nil {
+				for _, st := range fs.Body.List {
+					switch x := st.(type) {
+					case *ast.IfStmt:
+						loopHeads = append(loopHeads, "if "+exprText(x.Cond))
+					case *ast.SwitchStmt:
+						loopHeads = append(loopHeads, "switch")
+					default:
+						loopHeads = append(loopHeads, nodeText(st))
+					}
+				}
+			}
+			return true
+		})
+	}
+	fmt.Fprintf(&sb, "\n/-- the loop over one decoder in `DownSamplingMultiSeriesInto`: its statements in order (an `if` by its\ncondition), and how many `decoder.Value()` calls the function contains -/\n")
+	fmt.Fprintf(&sb, "def decoderLoopStmts : List String := %s\n", LeanStrList(loopHeads))
+	fmt.Fprintf(&sb, "def decoderValueCalls : Nat := %d\n", valueCalls)
+
 	// what survives a Merge call inside the merger, and the block writer's bookkeeping
 	fmt.Fprintf(&sb, "\n/-- fields of `struct merger`, and the receiver fields `Merge`/`prepare` assign (state carried from one\nmetric to the next would show here) -/\n")
 	fmt.Fprintf(&sb, "def mergerStructFields : List String := %s\n", LeanStrList(c03StructFields(mg, "merger")))
@@ -725,6 +775,27 @@ func genC03(repo string) (string, error) {
 	if err != nil {
 		return "", err
 	}
+	mid := FindFunc(vc, "Compaction", "MarkInputDeletes")
+	var midLoops []string
+	if mid != nil {
+		ast.Inspect(mid.Body, func(n ast.Node) bool {
+			if rs, ok := n.(*ast.RangeStmt); ok {
+				item := "range " + exprText(rs.X)
+				ast.Inspect(rs.Body, func(m ast.Node) bool {
+					if ce, ok := m.(*ast.CallExpr); ok {
+						if strings.HasSuffix(exprText(ce.Fun), "editLog.Add") || strings.HasSuffix(exprText(ce.Fun), ".DeleteFile") {
+							item += " -> " + exprText(ce)
+						}
+					}
+					return true
+				})
+				midLoops = append(midLoops, item)
+			}
+			return true
+		})
+	}
+	fmt.Fprintf(&sb, "/-- `Compaction.MarkInputDeletes`: per loop the ranged input list and the delete record it adds -/\n")
+	fmt.Fprintf(&sb, "def markInputDeletesLoops : List String := %s\n", LeanStrList(midLoops))
 	tm := FindFunc(vc, "Compaction", "IsTrivialMove")
 	tmExpr := ""
 	if tm != nil && len(tm.Body.List) == 1 {
